@@ -263,6 +263,36 @@ top_adsb!(top_adsb_bds61, d_bds61, |_| true, ME::BDS61);
 top_adsb!(top_adsb_bds62, d_bds62, |_| true, ME::BDS62);
 top_adsb!(top_adsb_bds65, d_bds65, |_| true, ME::BDS65);
 
+harness! {
+    #[kani::unwind(66)]
+    #[kani::stub(alloc::fmt::format, crate::stubs::fmt_stub)]
+    /// DF17 and DF18 records around the payload-less ME variant (type code 0): the HEADER of the extended-squitter
+    /// records - df label, icao24 fed from the announced address, no key clash - in the quick tier (the records around
+    /// every accepted payload of every type are `top_adsb_*`)
+    fn top_adsb_tc00(s) {
+        let mut a: [u8; 7] = s.bytes();
+        a[0] = 0;
+        let addr = s.u32();
+        let other = s.u32();
+        let tisb = s.bool();
+        vassume!(addr < (1 << 24) && other < (1 << 24));
+        let cap = any_capability(s);
+        let cft = any_cft(s);
+        let r = <ME as DekuContainerRead>::from_bytes((&a[..], 0));
+        vcover!(r.is_ok());
+        if let Ok((_, me)) = r {
+            let (df, label): (DF, &[u8]) = if tisb {
+                (DF::ExtendedSquitterTisB { cf: ControlField { field_type: cft, aa: ICAO(addr), me }, pi: ICAO(other) }, b"18")
+            } else {
+                (DF::ExtendedSquitterADSB(ADSB { capability: cap, icao24: ICAO(addr), message: me, parity: ICAO(other) }), b"17")
+            };
+            let m = Message { crc: 0, df };
+            top_ok(&m, label, Some(addr));
+            core::mem::forget(m);
+        }
+    }
+}
+
 macro_rules! top_commb {
     ($name:ident, $dec:ident, $field:ident) => {
         harness! {
@@ -413,7 +443,7 @@ with_selector_stubs! {
 registry!(ser_selector_df20, ser_selector_df21, ser_me_bds05, ser_me_bds06, ser_me_bds08, ser_me_bds09, ser_me_bds61, ser_me_bds62, ser_me_bds65, ser_me_tc00, ser_me_tc23, ser_me_tc24, ser_me_tc25, ser_me_tc27, ser_me_tc30,
           ser_bds10, ser_bds17, ser_bds18, ser_bds19, ser_bds20, ser_bds21, ser_bds30, ser_bds40, ser_bds44, ser_bds45, ser_bds50, ser_bds60,
           hex6_real_format, top_df0, top_df4, top_df5, top_df11, top_df16, top_df20_empty, top_df21_empty, top_df19, top_df24,
-          top_adsb_bds05, top_adsb_bds06, top_adsb_bds08, top_adsb_bds09, top_adsb_bds61, top_adsb_bds62, top_adsb_bds65,
+          top_adsb_tc00, top_adsb_bds05, top_adsb_bds06, top_adsb_bds08, top_adsb_bds09, top_adsb_bds61, top_adsb_bds62, top_adsb_bds65,
           top_commb_bds10, top_commb_bds17, top_commb_bds20, top_commb_bds30, top_commb_bds40, top_commb_bds44, top_commb_bds45,
           top_commb_bds50, top_commb_bds60, top_commb_bds05,
           timed_frame_short, timed_frame_long, hex_real_1);
